@@ -25,6 +25,7 @@ ASSUMPTIONS = [
     "after: dispatcher with all observers over a history, every named rule solver, the four graph builders (+ solved graph), "
     "SingleJobShopGraphEnv episode, Schedule.from_job_sequences/to_dict (the CP solver is not included: it cannot run on symbolic durations)",
     "padded arrays are kept exact by the numpy facade",
+    "benchmarks mode: the 162 shipped instances (concrete data, enumerated) survive the JSON round trip and their aggregate views equal the definitions",
 ]
 STUBS = ["max", "min", "int (dispatcher module only)", "np facade"]
 BUDGET = {"quick": 480, "thorough": 2700}
@@ -52,6 +53,7 @@ def subspaces(tier):
     out += C.structure_subspaces(s3, 3, False, mode="schedules")
     out += C.structure_subspaces(s4, 2, False, mode="sequences")
     out += C.structure_subspaces(s3, 3, False, mode="sequences")
+    out += [dict(shape=[1], machines=[[0]], mode="benchmarks", part=i) for i in range(4)]
     out += C.structure_subspaces(s3, 2, False, mode="immutable")
     out += C.structure_subspaces(D.shapes(2, 2), 2, True, only_flexible=True, mode="immutable")
     if tier == "thorough":
@@ -63,7 +65,7 @@ def subspaces(tier):
 
 
 def cost(sp):
-    return {"views": 1, "schedules": 1, "sequences": 3, "immutable": 6}[sp["mode"]] * C.cost(dict(sp, filter="none"))
+    return {"views": 1, "schedules": 1, "sequences": 3, "immutable": 6, "benchmarks": 500}[sp["mode"]] * C.cost(dict(sp, filter="none"))
 
 
 def concrete_values(eng):
@@ -434,7 +436,35 @@ def env_episode(eng, inst, desc, spec):
     env.reset()
 
 
+def benchmarks_harness(eng, sp):
+    """The 162 shipped benchmark instances (concrete data): dictionary/JSON round trip and the aggregate views."""
+    from job_shop_lib import JobShopInstance
+    from job_shop_lib.benchmarking import load_all_benchmark_instances, load_benchmark_instance
+
+    allb = load_all_benchmark_instances()
+    names = sorted(allb)[sp["part"]::4]
+    for name in names:
+        eng.reachable("state")
+        eng.reachable("transition")
+        inst = allb[name]
+        back = JobShopInstance.from_matrices(**json.loads(json.dumps(inst.to_dict())))
+        a = [[(list(o.machines), o.duration, o.operation_id) for o in job] for job in inst.jobs]
+        b = [[(list(o.machines), o.duration, o.operation_id) for o in job] for job in back.jobs]
+        if a != b or back.name != inst.name or back.metadata != inst.metadata or inst.name != name:
+            eng.fail("C14/benchmark/json-round-trip-differs", name)
+        if inst.total_duration != sum(o.duration for j in inst.jobs for o in j) or \
+                inst.num_operations != sum(len(j) for j in inst.jobs) or \
+                [o.operation_id for j in inst.jobs for o in j] != list(range(inst.num_operations)) or \
+                inst.machine_loads != [sum(o.duration for j in inst.jobs for o in j if m in o.machines) for m in range(inst.num_machines)]:
+            eng.fail("C14/benchmark/view-differs-from-definition", name)
+        if load_benchmark_instance(name).to_dict() != inst.to_dict():
+            eng.fail("C14/benchmark/load_benchmark_instance-differs", name)
+    eng.observe("n", len(names))
+
+
 def harness(eng, sp):
+    if sp["mode"] == "benchmarks":
+        return benchmarks_harness(eng, sp)
     inst, desc = D.build_instance(eng, sp["shape"], sp["machines"], dmin=0)
     {"views": views_harness, "schedules": schedules_harness, "sequences": sequences_harness,
      "immutable": immutable_harness}[sp["mode"]](eng, sp, inst, desc)
